@@ -23,7 +23,9 @@ func c14Cmd(rng *rand.Rand, sess *model.Session) []string {
 	k := pick(rng, c14Keys)
 	switch rng.Intn(40) {
 	case 0, 1, 2, 3, 4, 5:
-		return []string{"SELECT", pick(rng, []string{"0", "1", "2", "3", "7", "15", "15", "1", "-1", "16", "99", "9223372036854775808", "x", ""})}
+		return []string{"SELECT", pick(rng, []string{"0", "1", "2", "3", "7", "15", "15", "1", "-1", "16", "99", "9223372036854775808", "x", "",
+			// out of range, but in range after a truncation to 8, 16 or 32 bits
+			"256", "257", "271", "-256", "-255", "65536", "65537", "4294967296", "4294967297", "-4294967295", "9223372036854775807", "-9223372036854775808", "1.0", " 1"})}
 	case 6, 7:
 		return []string{"SET", k, fmt.Sprintf("db%d-%d", sess.DB, rng.Intn(100))}
 	case 8, 9:
